@@ -34,7 +34,8 @@ MANIFEST = {
             '"pdf(x) = product of the conditional densities given the parents\' values at x, logpdf = sum of their logs" is a postcondition over '
             'uninterpreted conditional densities, and "zero / -inf exactly where some conditional density is zero, logpdf = log pdf" are ghost lemmas '
             'over the extended reals for products / sums of any length (loop invariants).',
-    'note': 'Trusted: pyvc engine and spec tables; C03 exec_sem and C14 get_parents / copy / parameter_names by name; ElfiModel.__getitem__, '
+    'note': 'Trusted: pyvc engine and spec tables; C03 exec_sem (end-to-end compile+load+execute = sem is bounded-only in C03; Executor.execute and the '
+            'induction step are proved there) and C14 get_parents / copy / parameter_names by name; ElfiModel.__getitem__, '
             'NodeReference.parents / .distribution / _new_name (sanity-tested); scipy densities pure, row-wise, finite, non-negative; real arithmetic. '
             'Graph-building contracts are exhaustive over the enumerated shape family only. Not decided: "draws have positive density", '
             '"gradient agrees with the derivative" (bounded stand-in only). Defects reported: F11 (strict subset request), N1 (integer-typed '
@@ -1481,7 +1482,11 @@ TRUSTED_BASE = [
     'pyvc engine: proxies, loop cutting, spec tables (pyvc/npspec.py, pyvc/sarray.py incl. float->int truncation on assignment, elementwise mask assignment; '
     'pyvc/extreal.py IEEE tag tables) - sanity-tested against the installed numpy each run',
     'C03/exec_sem (assumed by name, contracted by the C03 builder): the requested outputs of a compiled + loaded net equal the dataflow meaning sem(G, x); '
-    'a node holding an output and no operation means that output, a node holding both is rejected (ValueError); operations act row-wise on the batch',
+    'a node holding an output and no operation means that output, a node holding both is rejected (ValueError); operations act row-wise on the batch. '
+    'Status in C03: C03/Executor.execute (output(x) = apply(op_x, parents\' outputs by ascending int param), each needed op once, nodes that already hold an '
+    'output never run) and the induction step C03/lemma_exec_sem_step are SMT-proved for all graphs; the END-TO-END statement '
+    'client.compute(load_data(compile(G)))[x] = sem(G, ov, x) (composition of the compiler passes / loaders with the induction) is BOUNDED-ONLY there '
+    '(bounded/c03.py: models <= 3 nodes exhaustive, 4-5 sampled) - the C08 value clause is therefore a proof relative to a bounded-checked assumption',
     'C14 (assumed by name): GraphicalModel.add_edge gives the k-th positional parent the param k, get_parents lists positional parents by ascending param, '
     'ElfiModel.parameter_names = sorted parameter nodes, ElfiModel.copy = equal view, add_node raises for an existing name',
     'NodeReference._new_name (a trailing * in a node name is replaced by a random suffix until the name is unique: `while True` loop, not analysed); '
